@@ -22,7 +22,7 @@ func checkC02(e *Engine, r *Report) {
 		"R1 CPU class bracket: a balloon's CPUs are set to the idle class before and to the balloon's class after every change of its CPU set; deleting a balloon idles its CPUs; applying a configuration resets all CPUs and then applies every balloon's class; cpu.Assign adds CPUs to the named class and removes them from every other class",
 	}
 	r.NotDecided = []string{"that the sizes chosen equal the containers' requests", "the CPU tree allocator's choices", "that cputree.ResizeCpus honours its documented contract (assumption)"}
-	r.Assumptions = []string{"cputree ResizeCpus: addFromCpus ⊆ free CPUs, removeFromCpus ⊆ the balloon's CPUs", "cpuallocator (C08): AllocateCpus returns a subset of the set it is given; ReleaseCpus leaves a subset of it behind", "free CPUs and balloon CPUs are disjoint at function entry (established by setConfig, preserved by the frame lemmas)"}
+	r.Assumptions = []string{"cputree ResizeCpus: removeFromCpus ⊆ the balloon's CPUs (addFromCpus ⊆ free CPUs is decided by subset typing)", "cpuallocator (C08): AllocateCpus returns a subset of the set it is given; ReleaseCpus leaves a subset of it behind", "free CPUs and balloon CPUs are disjoint at function entry (established by setConfig, preserved by the frame lemmas)"}
 
 	blFns := e.funcsInPkg(pkgBL)
 	B := "(*" + short(pkgBL) + ".balloons)."
@@ -143,6 +143,7 @@ func checkC02(e *Engine, r *Report) {
 		}
 	}
 	r.MinInstances("steps changing free/balloon CPU sets", nFrames, 2)
+	checkResizerSubsets(e, r)
 	// setConfig starts from freeCpus = allowed
 	{
 		ok := false
